@@ -83,6 +83,12 @@ def monitor(c):
             return "unmet DAG precondition: a step or handler was executed: %s" % c["exec"]
         if c["hist_files"] or hist_actions(c):
             return "unmet DAG precondition: history was recorded: %s %s" % (c["hist_files"], hist_actions(c))
+    elif cl == "frozen":
+        if c["err"] == "" or c["exec"] or hist_actions(c) or c["hist_files"]:
+            return ("a start whose 'already running?' probe timed out (the socket is held by a frozen process) was not refused silently: "
+                    "error %r, executed %s, history %s %s" % (c["err"], c["exec"], hist_actions(c), c["hist_files"]))
+        if not c.get("endpoint_intact"):
+            return "a start whose probe timed out removed / replaced the socket of the frozen run"
     elif cl == "running" and c["probe_running"]:
         f = c.get("first") or {}
         if c["err_kind"] != "running":
